@@ -192,5 +192,5 @@ def load_prop(pid):
     mod = importlib.import_module(f'vf.props.{pid.lower()}')
     from .added import ADDED
     if ADDED.get(pid) and ADDED[pid] not in mod.PROP.rule:
-        mod.PROP.rule += '. ' + ADDED[pid]
+        mod.PROP.rule += (' ' if mod.PROP.rule.rstrip().endswith('.') else '. ') + ADDED[pid]
     return mod.PROP
